@@ -10,7 +10,7 @@ props = [c["property_id"] for c in manifest["checks"]]
 ids = sorted(d for d in os.listdir("/verif/seeded") if os.path.isfile(f"/verif/seeded/{d}/patch.diff"))
 if len(sys.argv) > 1:
     ids = [i for i in ids if i in sys.argv[1:]]
-NW = 4
+NW = int(os.environ.get('MATRIX_WORKERS', '3'))
 lock = threading.Lock()
 free = list(range(NW))
 
@@ -45,7 +45,9 @@ def run(mid):
             c = subprocess.run([BIN, "check", "-prop", p, "-no-evidence"], capture_output=True, text=True, env=env)
             viol = [ln.split("obligation=")[1].split(" status=")[0] for ln in c.stdout.splitlines() if ln.startswith("VIOLATION") and "obligation=" in ln]
             conf = [("no-failing-input-found" not in ln) for ln in c.stdout.splitlines() if ln.startswith("VIOLATION")]
-            res["checks"][p] = {"rc": c.returncode, "violations": viol[:4], "replayed": any(conf)}
+            stats = [ln.split(" status=")[1].split(" ")[0] for ln in c.stdout.splitlines() if ln.startswith("VIOLATION") and " status=" in ln]
+            res["checks"][p] = {"rc": c.returncode, "violations": viol[:4], "replayed": any(conf), "statuses": sorted(set(stats)),
+                                "timeout_only": bool(stats) and all("timeout" in s for s in stats)}
             if c.returncode == 2:
                 res["checks"][p]["engine"] = (c.stderr.strip().splitlines() or [""])[-1][:300]
         return res
@@ -57,7 +59,7 @@ setup()
 results = []
 with cf.ThreadPoolExecutor(NW) as ex:
     for r in ex.map(run, ids):
-        caught = [p for p, v in r.get("checks", {}).items() if v["rc"] == 1]
+        caught = [p + ("(timeout)" if v.get("timeout_only") else "") for p, v in r.get("checks", {}).items() if v["rc"] == 1]
         print(r["id"], "applies" if r["applies"] else "DOES-NOT-APPLY", "caught by", caught, flush=True)
         results.append(r)
 teardown()
